@@ -33,7 +33,13 @@ use zipora::io::{DataInput, DataOutput, FileDataOutput, MemoryMappedInput, Memor
 use zipora::memory::{MmapVec, MmapVecConfig};
 use zv::*;
 
+/// default scratch directory; `--scratch DIR` overrides it (the orchestration passes <work>/C19-tmp
+/// so that a check against another tree (ZV_REPO) does not share it)
 const TMP: &str = "/verif/work/C19-tmp";
+
+fn scratch(a: &Args) -> PathBuf {
+    PathBuf::from(a.get("scratch").unwrap_or(TMP))
+}
 
 // ---------------------------------------------------------------- snapshots
 
@@ -76,6 +82,10 @@ struct Recorder {
     /// every snapshotted file stays open until the run ends, so that the inode number of a file
     /// that is later replaced cannot be handed out again
     handles: Vec<fs::File>,
+    /// block size of the fault model for this run (16 / 512 / 4096)
+    bs: usize,
+    /// written multi-element runs [start, len] of a run-length subject (inputs of the history)
+    wruns: Vec<Value>,
 }
 
 impl Recorder {
@@ -83,7 +93,7 @@ impl Recorder {
         let live = run_dir.join("live");
         let _ = fs::remove_dir_all(run_dir);
         fs::create_dir_all(&live).expect("create live dir");
-        Recorder { run_dir: run_dir.to_path_buf(), live, k: 0, points: vec![], ops: vec![], bounds: vec![], inos: vec![], handles: vec![] }
+        Recorder { run_dir: run_dir.to_path_buf(), live, k: 0, points: vec![], ops: vec![], bounds: vec![], inos: vec![], handles: vec![], bs: 512, wruns: vec![] }
     }
     /// `content`: None = no readable structure exists at this point (a builder in progress)
     fn snap(&mut self, op: &str, sync: bool, content: Option<Vec<u8>>, bounds: Vec<usize>) {
@@ -116,6 +126,8 @@ type Reopened = Result<(Vec<u8>, Option<u64>), String>;
 
 /// bytes of the file its header claims to own (header + capacity), set by subjects that expose it
 static CLAIM: AtomicU64 = AtomicU64::new(u64::MAX);
+/// last maximal run (start, len) of the values a run-length subject yielded; len 0 = none
+static TAIL: [AtomicU64; 2] = [AtomicU64::new(0), AtomicU64::new(0)];
 
 trait Subject: Send + Sync {
     fn fam(&self) -> &'static str;
@@ -125,6 +137,14 @@ trait Subject: Send + Sync {
     }
     fn framing(&self) -> &'static str {
         "header"
+    }
+    /// block size of the fault model for run `r` of this subject
+    fn block_size(&self, r: usize, big: bool) -> usize {
+        if big || r % 2 == 1 {
+            4096
+        } else {
+            512
+        }
     }
     /// perform a seeded history on the real structure inside `rec.live`
     fn drive(&self, rng: &mut Rng, rec: &mut Recorder, big: bool);
@@ -454,19 +474,34 @@ impl Subject for ZipOff {
 
 struct Reorder(&'static str);
 
-fn reorder_content(path: &Path) -> Reopened {
+fn reorder_content(path: &Path, sign: i64) -> Reopened {
     let mut m = ZReorderMap::open(path).map_err(es)?;
     let mut o = Vec::new();
     let size = m.size();
     o.extend_from_slice(&(size as u64).to_le_bytes());
     let mut n = 0u64;
+    // projection of the output: its last maximal run of consecutive values (start, len)
+    let (mut rs, mut rl, mut prev) = (0u64, 0u64, 0u64);
     while let Some(v) = m.next() {
-        o.extend_from_slice(&(v as u64).to_le_bytes());
+        let v = v as u64;
+        o.extend_from_slice(&v.to_le_bytes());
+        if rl > 0 && v as i64 == prev as i64 + sign {
+            rl += 1;
+        } else {
+            rs = v;
+            rl = 1;
+        }
+        prev = v;
         n += 1;
         if n > (1 << 22) {
             return Err("more than 2^22 values".into());
         }
     }
+    // everything the reader reports about itself is part of the content
+    o.extend_from_slice(&n.to_le_bytes());
+    o.push(m.eof() as u8);
+    TAIL[0].store(rs, Ordering::SeqCst);
+    TAIL[1].store(rl, Ordering::SeqCst);
     Ok((o, None))
 }
 
@@ -477,38 +512,76 @@ impl Subject for Reorder {
     fn variant(&self) -> String {
         self.0.into()
     }
-    fn drive(&self, rng: &mut Rng, rec: &mut Recorder, big: bool) {
+    fn block_size(&self, r: usize, big: bool) -> usize {
+        // 16-byte blocks: block 0 is exactly the header; 512 / 4096: header + the first records
+        if big {
+            4096
+        } else if r % 2 == 0 {
+            16
+        } else {
+            512
+        }
+    }
+    fn drive(&self, rng: &mut Rng, rec: &mut Recorder, _big: bool) {
         let path = rec.live.join("reorder.map");
         let sign: i64 = if self.0 == "desc" { -1 } else { 1 };
-        for _gen in 0..2 {
-            let n = if big { rng.range(1500, 2500) } else { rng.range(1, 60) } as usize;
+        // Every generation REWRITES the same file in place.  All generations of a run start with
+        // the same number of single-value records, enough to fill the first block, so that a
+        // mixture of old and new blocks stays aligned with the record boundaries; behind them come
+        // several multi-element runs of different lengths (and a few single values), and the
+        // generations differ in length (longer / shorter) and run structure.
+        let prefix = match rec.bs {
+            16 => rng.below(3) as usize,
+            512 => 100 + rng.below(4) as usize,
+            _ => 816 + rng.below(6) as usize,
+        };
+        let plan = [3usize, 6, 2, 5];
+        for (g, &nruns) in plan.iter().enumerate() {
+            let mut recs: Vec<(i64, usize)> = vec![];
+            for _ in 0..prefix {
+                recs.push((rng.below(1 << 20) as i64 + (1 << 20), 1));
+            }
+            for i in 0..nruns + rng.below(2) as usize {
+                let len = match if i == 0 { 2 } else { rng.below(5) } {
+                    0 => 1,
+                    1 => rng.range(2, 6),
+                    2 | 3 => rng.range(7, 40),
+                    _ => rng.range(41, 300),
+                } as usize;
+                recs.push((rng.below(1 << 20) as i64 + (1 << 20), len));
+            }
+            if g == 3 {
+                // same element count as the previous generation would be luck; a final long run
+                // makes this one the longest of the run
+                recs.push((rng.below(1 << 20) as i64 + (1 << 20), rng.range(300, 700) as usize));
+            }
+            let n: usize = recs.iter().map(|r| r.1).sum();
             let mut b = match ZReorderMapBuilder::new(&path, n, sign) {
                 Ok(b) => b,
                 Err(_) => return,
             };
             rec.snap("builder", false, None, vec![16]);
-            let mut cur = rng.below(1 << 20) as i64 + (1 << 20);
             let mut pushed = 0usize;
-            while pushed < n {
-                // runs of consecutive values (the RLE case) mixed with single values
-                let run = if rng.chance(1, 3) { rng.range(2, 9) as usize } else { 1 };
-                for _ in 0..run.min(n - pushed) {
-                    let _ = b.push(cur as usize);
-                    cur += sign;
-                    pushed += 1;
+            for &(start, len) in &recs {
+                if len > 1 {
+                    rec.wruns.push(json!([start, len]));
                 }
-                cur = rng.below(1 << 20) as i64 + (1 << 20);
-                if pushed % 400 < run {
-                    rec.snap("push", false, None, vec![16]);
+                for i in 0..len {
+                    let _ = b.push((start + sign * i as i64) as usize);
+                    pushed += 1;
+                    if pushed % 500 == 0 {
+                        rec.snap("push", false, None, vec![16]);
+                    }
                 }
             }
             let ok = b.finish().is_ok();
-            let c = reorder_content(&path).ok().map(|x| x.0);
+            let c = reorder_content(&path, sign).ok().map(|x| x.0);
             rec.snap("finish", ok, c, vec![16]);
         }
     }
     fn reopen(&self, dir: &Path) -> Reopened {
-        reorder_content(&dir.join("reorder.map"))
+        let sign: i64 = if self.0 == "desc" { -1 } else { 1 };
+        reorder_content(&dir.join("reorder.map"), sign)
     }
 }
 
@@ -775,8 +848,9 @@ fn materialise(kind: &str, j: usize, len: usize, old: &[u8], new: &[u8], bs: usi
 
 fn mode_drive(a: &Args) {
     quiet_panics();
-    let _ = fs::remove_dir_all(TMP);
-    fs::create_dir_all(TMP).expect("scratch dir");
+    let tmp = scratch(a);
+    let _ = fs::remove_dir_all(&tmp);
+    fs::create_dir_all(&tmp).expect("scratch dir");
     fs::create_dir_all(&a.out).expect("out dir");
     let mut shapes = fs::File::create(a.out.join("shapes.ndjson")).expect("shapes");
     let mut runs = fs::File::create(a.out.join("runs.ndjson")).expect("runs");
@@ -800,10 +874,11 @@ fn mode_drive(a: &Args) {
                 continue;
             }
             run += 1;
-            let bs: usize = if big || r % 2 == 1 { 4096 } else { 512 };
+            let bs: usize = s.block_size(r, big);
             let mut rng = base_rng.derive(&format!("{}#{}", s.name(), r));
-            let run_dir = PathBuf::from(TMP).join(format!("r{run}"));
+            let run_dir = tmp.join(format!("r{run}"));
             let mut rec = Recorder::new(&run_dir);
+            rec.bs = bs;
             let res = guard(|| s.drive(&mut rng, &mut rec, big));
             if res.is_err() {
                 per["panics"] = json!(per["panics"].as_u64().unwrap() + 1);
@@ -869,7 +944,7 @@ fn mode_drive(a: &Args) {
             let info = json!({
                 "run": run, "subject": s.name(), "fam": s.fam(), "variant": s.variant(), "framing": s.framing(),
                 "seed": a.seed, "bs": bs, "big": big, "dir": run_dir.to_string_lossy(), "ops": rec.ops,
-                "bases": bases, "syncpoints": rec.points,
+                "bases": bases, "syncpoints": rec.points, "wruns": rec.wruns,
             });
             writeln!(runs, "{}", info).unwrap();
             per["runs"] = json!(per["runs"].as_u64().unwrap() + 1);
@@ -962,6 +1037,7 @@ fn mode_child(a: &Args) {
         }
         let flen = new.len();
         CLAIM.store(u64::MAX, Ordering::SeqCst);
+        TAIL[1].store(0, Ordering::SeqCst);
         append_line(&res, &json!({"i": i, "begin": true}));
         CUR_IDX.store(i, Ordering::SeqCst);
         CUR_START_MS.store(now_ms(), Ordering::SeqCst);
@@ -971,7 +1047,11 @@ fn mode_child(a: &Args) {
         let line = match r {
             Ok(Ok((content, extent))) => {
                 let c = CLAIM.load(Ordering::SeqCst);
-                json!({"i": i, "outcome": "ok", "content": digest(&content), "extent": opt(extent),
+                let tail = match TAIL[1].load(Ordering::SeqCst) {
+                    0 => json!([]),
+                    n => json!([TAIL[0].load(Ordering::SeqCst), n]),
+                };
+                json!({"i": i, "outcome": "ok", "content": digest(&content), "extent": opt(extent), "tail": tail,
                     "claim": opt(if c == u64::MAX { None } else { Some(c) }), "len": bytes.len(), "flen": flen, "raw": raw})
             }
             Ok(Err(msg)) => json!({"i": i, "outcome": "err", "msg": msg, "len": bytes.len(), "flen": flen, "raw": raw}),
@@ -1146,7 +1226,7 @@ fn mode_images(a: &Args) {
         let name = info["subject"].as_str().unwrap();
         tr.reset("DurableFile", name, json!({
             "fam": info["fam"], "variant": info["variant"], "framing": info["framing"], "seed": info["seed"],
-            "bs": info["bs"], "big": info["big"], "ops": info["ops"], "frun": run,
+            "bs": info["bs"], "big": info["big"], "ops": info["ops"], "frun": run, "wruns": info["wruns"],
         }));
         tr.ev(json!({"op": "history", "syncpoints": info["syncpoints"]}));
         let sum = subj_sum.entry(name.to_string()).or_default();
@@ -1161,7 +1241,8 @@ fn mode_images(a: &Args) {
                 "upto": it.k, "base": it.base, "f": it.f, "raw": r.get("raw").cloned().unwrap_or(zero.clone()),
                 "flen": r.get("flen").cloned().unwrap_or(json!(it.flen))}));
             let mut e = json!({"op": "reopen", "outcome": outcome, "content": r.get("content").cloned().unwrap_or(zero),
-                "extent": r.get("extent").cloned().unwrap_or(json!([])), "claim": r.get("claim").cloned().unwrap_or(json!([]))});
+                "extent": r.get("extent").cloned().unwrap_or(json!([])), "claim": r.get("claim").cloned().unwrap_or(json!([])),
+                "tail": r.get("tail").cloned().unwrap_or(json!([]))});
             for f in ["msg", "sig", "exit"] {
                 if let Some(v) = r.get(f) {
                     e[f] = v.clone();
@@ -1184,7 +1265,7 @@ fn mode_images(a: &Args) {
         "subjects": subj_sum, "samples": samples, "slices": slices.len(), "jobs": jobs,
     }));
     if a.get("keep").is_none() {
-        let _ = fs::remove_dir_all(TMP);
+        let _ = fs::remove_dir_all(scratch(a));
     }
 }
 
@@ -1195,7 +1276,7 @@ fn main() {
         "images" => mode_images(&a),
         "child" => mode_child(&a),
         "clean" => {
-            let _ = fs::remove_dir_all(TMP);
+            let _ = fs::remove_dir_all(scratch(&a));
         }
         m => {
             eprintln!("c19: unknown mode {m}");
